@@ -1085,6 +1085,39 @@ example (w : World) (h : runOps 1000 8 40 (World.init 1000) quietSample = some w
     (∀ root now, (w.f root).parent = none → ∃ res, managerGpt 1000 5 20 w root now = some res) :=
   sweeps_terminate_quiet_history_explicit 1000 8 40 5 20 quietSample w quietSample_quiet h (by decide) (by decide)
 
+/-- THE HEADLINE OF C20 WITH NO HYPOTHESIS ABOUT THE STATE.  After ANY quiet history (`QuietOps`: `script` operations queue request-only
+    actions; `gpt` and `pulse` operations included), a recalculation sweep from a root followed by a pulse sweep at `t < never` fires the
+    due nodes: (1) every node below the root whose request stands and is `≤ t` after the recalculation gets a `Pulse(t, ·)` entry
+    (completeness); (2) every entry of the pulse sweep is a `Pulse` at `t` with a scheduled time `≤ t`, of a node that has no standing
+    request afterwards (never early; not twice on one request).  This is exactly the conjunction `fires_iff_due` gives; that the scheduled
+    time of each entry is the node's latest answer is `fires_with_asked_time` (every history), and "exactly once" is (1) + "no standing
+    request afterwards" (a second `Pulse` needs a standing request, `never_early`/`fired_loses_request`), not a separate counting
+    statement. -/
+theorem fires_iff_due_quiet_history (never d0 k0 d k k2 : Nat) (ops : List Op) (w w1 w2 : World) (root now t m : Nat)
+    (hq : QuietOps ops) (hreach : runOps never d0 k0 (World.init never) ops = some w)
+    (hroot : (w.f root).parent = none) (ht : t < never)
+    (hg : managerGpt never d (k+1) w root now = some (w1, m))
+    (hp : managerPulse never d k2 w1 root t = some w2) :
+    ∃ l, w2.log = w1.log ++ l ∧
+      (∀ x, Desc w1.f root x → (w1.f x).valid = true → (w1.f x).myTime ≤ t → ∃ s, Event.P x t s ∈ l) ∧
+      (∀ e ∈ l, ∃ id s, e = .P id t s ∧ s ≤ t ∧ (w2.f id).valid = false) := by
+  obtain ⟨hi, _, hgq, hpq⟩ := inv_v_history_quiet never d0 k0 ops w hq hreach
+  have hg' := hg
+  simp only [managerGpt] at hg'
+  obtain ⟨hc, _⟩ := (gptC_complete never d (k+1)).1 w w1 root now never m [] hgq hg'
+  have hC : managerGptC never d (k+1) w root now = some (w1, m, true) := by simpa [managerGptC] using hc
+  have hpq1 : PQuiet w1 := by
+    intro n acts ha
+    rw [(gpt_pq never d (k+1)).1 w w1 root now never m hg'] at ha
+    exact hpq n acts ha
+  exact fires_iff_due never d k k2 w w1 w2 root now t m ht hi hroot hC hpq1 hp
+
+/-- non-vacuity: after `quietSample` (which ends with `gpt 0 35`) node 2 requests 90; sweep again at 40, pulse at 95: exactly nodes 1 (40),
+    0 (50) and 2 (90) fire -/
+example : ((runOps 1000 8 40 (World.init 1000) quietSample).bind fun w =>
+      (managerGpt 1000 8 40 w 0 40).bind fun r => managerPulse 1000 8 40 r.1 0 95).map (·.log.drop 5) =
+    some [.P 0 95 50, .P 1 95 40, .P 2 95 90] := by decide +kernel
+
 /-! ### necessity witnesses for the disciplines of the statements that are still partial or conditional -/
 
 /-- `fires_iff_due` needs a discipline on `Pulse` callbacks: nodes 1 and 2 are both due at 50; undisturbed, both fire; when node 2's
